@@ -22,3 +22,6 @@ def run(chk, args):
         {"kind": "solve", "source": "family", "ns": "3,4", "count": 16 if q else 80, "families": FAMS,
          "classes": "superadditive_cached,sam_apx_1"},
     ])
+    # expected-greedy search (run/greedy.py) against the exhaustive optimum
+    from common_search import validate_search
+    validate_search(chk, "greedy", "3,4", 8 if q else 60, "1,2,4")
